@@ -410,6 +410,41 @@ def rule_roundtrip(ctx) -> None:
         {"firmware_version": 0x7FFF, "hash_type": H.SHA384, "description": None, "timestamp": 1, "is_nxp_container": True, "flags": 1}])], None, lv, floor=1)
 
 
+def rule_padding_checks(ctx) -> None:
+    """C05.padding-check: every check of reserved padding words in the SB3.1 command parsers refuses exactly the non-zero paddings: the
+    raising test over the names pad0, pad1, ... is evaluated on every 0/non-zero pattern (a chained `a != b != c != 0` is false for
+    (1, 1, 1) and for (0, 0, 5))."""
+    import itertools as _it
+    ctx.m(CMD)
+    n = 0
+    funcs = {q: f for q, f in ctx.prog.functions.items() if f.module.relpath == CMD}
+    for c_ in ctx.prog.classes.values():
+        if c_.module.relpath == CMD:
+            for fl in c_.methods.values():
+                for f in fl:
+                    funcs[f.qual] = f
+    for q, f in sorted(funcs.items()):
+        for st in ast.walk(f.node):
+            if not (isinstance(st, ast.If) and A.always_raises(st.body)):
+                continue
+            pads = sorted({x.id for x in ast.walk(st.test) if isinstance(x, ast.Name) and x.id.startswith("pad") and x.id[3:].isdigit()})
+            if len(pads) < 2:
+                continue
+            n += 1
+            ctx.chk.analysed(q)
+            wrong = []
+            for vals in _it.product((0, 1, 5), repeat=len(pads)):
+                try:
+                    got = bool(ordereval.Evaluator(dict(zip(pads, vals))).ev(st.test))
+                except ordereval.Unsupported as ex:
+                    raise AnalysisError(f"C05.padding-check: `{norm(st.test)}` left the fragment: {ex}")
+                if got != any(vals):
+                    wrong.append(vals)
+            ctx.chk.decide(not wrong, "C05.padding-check", f"{q} `{norm(st.test)[:50]}`", f"refuses exactly the non-zero paddings ({3 ** len(pads)} patterns)",
+                           f"`{norm(st.test)}` is wrong for the paddings {wrong[:4]}", "not pad0 == pad1 == pad2 == 0", A.loc(CMD, st))
+    ctx.chk.floor("C05.padding-check", 3)
+
+
 def run(ctx) -> None:
     ctx.chk.explain("C05: PackSym on the SB3.1 header and the command layouts; walk of the export call tree proving no accumulating state without reset (idempotent export); "
                     "shape of the hash chain (record layout, link update, processing order, container order and sequencing); length formulas evaluated for both hash sizes; "
@@ -422,6 +457,7 @@ def run(ctx) -> None:
     ctx.rule(rule_registry)
     ctx.rule(rule_pck_probe)
     ctx.rule(rule_roundtrip)
+    ctx.rule(rule_padding_checks)
     ctx.rule(c09.rule_kdf, "C05")
     ctx.chk.assumptions = ["hash/CMAC/AES values are those of the cryptography package (C09)", "not decided: signature validity, certificate block contents (C03), per-command payload semantics"]
 
